@@ -34,3 +34,8 @@ def plan(tier):
 def sample(scn, out):
     return {"cfg": scn["cfg"], "policy": scn["policy"], "latency": scn["latency"], "pipelines": len(scn["pipes"]),
             "policy_knobs": scn["policy_knobs"]}
+
+
+def extra(tier, seed):
+    info, viol = restsim.go_types_crossread()
+    return {"go_types_crossread": info, "violations": viol}
